@@ -633,6 +633,13 @@ def _project(acs):
                    "ver": enc.res(ac.get("ver")), "nics": enc.res(ac.get("nic_s")), "nica": enc.res(ac.get("nic_a")),
                    "nicbc": enc.res(ac.get("nic_bc")), "nucp": enc.res(ac.get("NUCp")), "nic": enc.res(ac.get("NIC")),
                    "nucv": enc.res(ac.get("NUCv")), "nacv": enc.res(ac.get("NACv")), "nacp": enc.res(ac.get("NACp"))}}
+        # numbers TLC cannot hold (or that would overflow its 32-bit arithmetic) are not passed on: the entry is flagged instead
+        wild = 0
+        for key, lim in (("live", 500000000), ("tpos", 500000000), ("r", 2097152), ("s", 2097152)):
+            if not isinstance(e[key], int) or abs(e[key]) > lim:
+                e[key] = 0
+                wild = 1
+        e["wild"] = wild
         out.append(e)
     out.sort(key=lambda x: x["addr"])
     return out, dup
@@ -689,8 +696,23 @@ def _demod(pm, v):
 
 
 # ---- C20: observations of pyModeS.aero projected to integers ----
+def _clamp(n):
+    """keep projected observations inside what JSON / TLC can hold; the verdicts range-check (Sane) before any arithmetic"""
+    return max(-2000000000, min(2000000000, int(n)))
+
+
+def _proj(x, scale):
+    x = float(x)
+    if x != x or abs(x * scale) > 1e12:
+        return 2000000000
+    return _clamp(round(x * scale))
+
+
 def _um(x):
-    return int(round(float(x) * 1e6))
+    x = float(x)
+    if x != x or abs(x) > 1e12:
+        return 2000000000
+    return _clamp(round(x * 1e6))
 
 
 _SHARED = {}
@@ -719,7 +741,7 @@ def _a_isa(pm, v):
         p, rho, T = a.atmos(h)
         p2, r2, T2 = a.pressure(h), a.density(h), a.temperature(h)
     same = 1 if (float(p) == float(p2) and float(rho) == float(r2) and float(T) == float(T2)) else 0
-    return {"t": "obs", "p": int(round(float(p) * 100)), "rho": int(round(float(rho) * 1e7)), "T": int(round(float(T) * 1000)),
+    return {"t": "obs", "p": _proj(p, 100), "rho": _proj(rho, 1e7), "T": _proj(T, 1000),
             "same": same}
 
 
@@ -735,7 +757,7 @@ def _a_track(pm, v):
         H[:] = -500.0 + 500.0 * (k - 1)
         p, rho, T = a.atmos(H)
         p2 = a.pressure(H)
-        steps.append({"k": k, "p": int(round(float(p[0]) * 100)), "rho": int(round(float(rho[1]) * 1e7)), "T": int(round(float(T[0]) * 1000)),
+        steps.append({"k": k, "p": _proj(p[0], 100), "rho": _proj(rho[1], 1e7), "T": _proj(T[0], 1000),
                       "same": 1 if float(p2[0]) == float(p[0]) else 0})
     return {"t": "obs", "steps": steps}
 
@@ -746,7 +768,7 @@ def _a_tropo(pm, v):
     out = {}
     for key, h in (("lo", 11000.0 - 1e-3), ("hi", 11000.0 + 1e-3)):
         p, rho, T = a.atmos(h)
-        out[key] = [int(round(float(p) * 1e4)), int(round(float(rho) * 1e9)), int(round(float(T) * 1e6))]
+        out[key] = [_proj(p, 1e4), _proj(rho, 1e9), _proj(T, 1e6)]
     out["t"] = "obs"
     return out
 
@@ -801,8 +823,8 @@ def _a_dist(pm, v):
     d21 = float(a.distance(v["la2"], v["lo2"], v["la1"], v["lo1"], H))
     hav = (1 - math.cos(d12 / (6371000.0 + H))) / 2
     brg = float(a.bearing(v["la1"], v["lo1"], v["la2"], v["lo2"]))
-    return {"t": "obs", "d12": int(round(d12 * 10)), "d21": int(round(d21 * 10)), "hav": int(round(hav * 1e4)),
-            "brg": int(math.floor(brg * 1000))}
+    return {"t": "obs", "d12": _proj(d12, 10), "d21": _proj(d21, 10), "hav": _proj(hav, 1e4),
+            "brg": _proj(math.floor(brg * 1000) if brg == brg and abs(brg) < 1e9 else brg, 1)}
 
 
 @reg("aero.same")
